@@ -1,6 +1,7 @@
 """C06 — SAM text round trip; SAM ≡ BAM content: tables and order (DESIGN.md §5 C06)."""
 import re
 
+from .. import a10
 from .. import a7
 from .. import cfg as C
 from .. import rules as R
@@ -94,6 +95,14 @@ def run(ctx):
                                   "the %d-th split field of parse_record_buf reaches %s, expected %s: a column is stored into another field" % (
                                       k + 1, sorted(reached) or "no setter", want), fp.loc(sb))
 
+    ctx.rule("C06.R5", "A3 reused buffer: every success path of the record parsers overwrites or clears each column of the destination")
+    R.reused_buffer_rule(ctx, "C06.R5", S + "io::reader::record_buf::parse_record_buf", "record_buf::RecordBuf::", SET_SEQ)
+    R.reused_buffer_rule(ctx, "C06.R5", S + "alignment::record_buf::convert::<impl noodles_sam::alignment::record_buf::RecordBuf>::try_clone_from_alignment_record",
+                         "record_buf::RecordBuf::", SET_SEQ)
+
+    ctx.rule("C06.R6", "A10 append-buffer discipline: SAM readers (and the BAM header's SAM text) reset their line buffer before every appended line")
+    a10.discipline_rule(ctx, "C06.R6", r"^<?noodles_(sam::|bam::(io|r#async)::.*header)", 10)
+
     ctx.rule("C06.R2", "A7 dec∘enc = id for the SAM text tables; missing markers agree")
     a7.table_agreement(ctx, "C06.R2", {"noodles_sam"}, 4, exceptions={
         S + "io::writer::record::data::field::ty::encode": "many-to-one"})   # SAM text writes every integer width as 'i'
@@ -156,3 +165,4 @@ def run(ctx):
             ctx.ok("C06.R4", fpm.key + " expands '=' to the record's own reference", "", fpm.loc())
         else:
             ctx.violation("C06.R4", "C06.R4/parser-eq/" + fpm.key, "the parser's mate arm no longer recognises '='", fpm.loc())
+
